@@ -161,9 +161,18 @@ func reportGlobalMutations(rp *Report, prop string) {
 	}
 	sort.Strings(names)
 	for _, n := range names {
+		if pureMemoNames[n] {
+			continue // a per-key memo table (flow.go, pureMemos): filling it is not a dependence on earlier calls
+		}
 		r.bad("interpreted:"+n, "", globalMutations[n]+": what a call returns can depend on earlier calls, and concurrent calls share mutable state", nil)
 	}
-	if len(names) == 0 {
+	shown := 0
+	for _, n := range names {
+		if !pureMemoNames[n] {
+			shown++
+		}
+	}
+	if shown == 0 {
 		r.ok("interpreted runs", "", "every interpreted call of this check left the package-level variables of the repository as it found them")
 	}
 }
